@@ -104,6 +104,14 @@ def lean_run_file(text, timeout=900):
     return rc, out
 
 
+def leancheck(module, timeout=900):
+    """Re-checks the compiled declarations of a module (and what it imports) with `leanchecker`, the toolchain's independent
+    re-checker of .olean files.  It prints nothing when every declaration is accepted and exits 0 either way."""
+    rc, out = sh(["lake", "env", "leanchecker", module], cwd=LEAN_DIR, timeout=timeout)
+    bad = rc != 0 or re.search(r"exception|error|Could not find", out) is not None
+    return (not bad), out[-1500:]
+
+
 def audit(module, theorems):
     """`#print axioms` for every property theorem; returns {name: [axioms] | None (missing)}."""
     mods = module if isinstance(module, (list, tuple)) else [module]
